@@ -14,12 +14,14 @@ CLAUSES = ('D', 'U', 'L')
 
 
 def run(ctx, clauses=CLAUSES, label='dataflow'):
+    # design level: judgement + instrumented machine, exhaustive over a small universe (Sound, Agrees, Detects)
+    ctx.mc('MC_Dataflow', 'MC_Dataflow', timeout=1800)
     if ctx.replay:
         c = ctx.replay['case']
         cases = [(c['prog'], c['inputs'])]
     else:
-        cases = D.directed(ctx.rng) + D.gen_cases(ctx.rng, 40 if ctx.quick else 700, 3 if ctx.quick else 4)
-    progs, runs = D.run_cases(ctx, label, cases, shards=8 if ctx.quick else None)
+        cases = D.directed(ctx.rng) + D.gen_cases(ctx.rng, 24 if ctx.quick else 600, 3 if ctx.quick else 4)
+    progs, runs = D.run_cases(ctx, label, cases)
     groups = D.report(ctx, label, clauses, cases, progs, runs)
     D.cover(ctx, label, clauses, cases, progs, runs)
     ctx.assumptions += [
